@@ -58,7 +58,7 @@ def main():
     from harness import ctldriver
     states = chk.mc_dump("Controllers.cfg", "Controllers.tla")
     if states is not None:
-        stride = 1 if chk.thorough else 6
+        stride = 1          # the whole case space replays in a few seconds
         for si, st in enumerate(states):
             if si % stride:
                 continue
